@@ -113,3 +113,18 @@ Definition tail_pad (t : ty) (v : value) : Z :=
 
 (* "a greedy array whose tail ends on the enclosing message's alignment boundary" (or no greedy array) *)
 Definition greedy_tail_aligned (t : ty) (v : value) : bool := tail_pad t v =? 0.
+
+(* ---- member offsets relative to the start of their block (C08) ---- *)
+(* A struct is split into blocks ("parts") that end with a dynamic member; every block starts
+   at an offset divisible by the greatest alignment of its members, so offsets inside a block
+   are fixed numbers. Per member: (block index from 0, offset of the member — of the flag for an
+   optional —, offset of an optional's value or -1). *)
+Fixpoint member_offsets (fs : list field) (part : Z) (o : Z) : list (Z * Z * Z) :=
+  match fs with
+  | [] => []
+  | f :: r =>
+      let o1 := o + pad (falign align f) o in
+      let entry := (part, o1, match fst f with FOpt => o1 + falign align f | _ => -1 end) in
+      if ends_block f then entry :: member_offsets r (part + 1) 0
+      else entry :: member_offsets r part (o1 + fsize size f)
+  end.
